@@ -101,6 +101,12 @@ pub assume_specification<T> [http::Response::<T>::from_parts] (p: http::response
 // values are removed." Names are case-normalised by HeaderName (lower case).
 pub assume_specification<T, K> [http::HeaderMap::<T>::insert] (m: &mut http::HeaderMap<T>, k: K, v: T) -> (r: std::option::Option<T>) where K: http::header::IntoHeaderName,
     ensures hm_view(*final(m)) == hm_view(*old(m)).insert(key_view(k), seq![v]);
+// append: "If the map did have this key present, the new value is pushed to the end of the list of values"
+pub assume_specification<T, K> [http::HeaderMap::<T>::append] (m: &mut http::HeaderMap<T>, k: K, v: T) -> (r: bool) where K: http::header::IntoHeaderName,
+    ensures hm_view(*final(m)) == hm_view(*old(m)).insert(key_view(k),
+                if hm_view(*old(m)).contains_key(key_view(k)) { hm_view(*old(m))[key_view(k)].push(v) } else { seq![v] });
+pub assume_specification<T, K> [http::HeaderMap::<T>::remove] (m: &mut http::HeaderMap<T>, k: K) -> (r: std::option::Option<T>) where K: http::header::AsHeaderName,
+    ensures hm_view(*final(m)) == hm_view(*old(m)).remove(key_view(k));
 pub assume_specification [http::HeaderName::from_static] (s: &'static str) -> (r: http::HeaderName)
     ensures hn_view(r) == s@;
 pub assume_specification [http::HeaderValue::from_str] (s: &str) -> (r: std::result::Result<http::HeaderValue, http::header::InvalidHeaderValue>)
